@@ -1,10 +1,626 @@
-(* Valid/Proofs.v — C11: proofs about the validation model. *)
-From ZV Require Import Common.Bytes Valid.Types Valid.Consts Valid.Model.
-From Coq Require Import Lia.
+(* Valid/Proofs.v — C11: proofs about the validation model.
+   Main result: whatever a leader proposes (for every entry of the generated registration table and
+   all argument vectors) is applied without a Go panic by the registered apply handler. *)
+From ZV Require Import Common.Bytes Common.BytesFacts Valid.Types Valid.Consts Valid.Model.
+From Coq Require Import Lia ZifyBool ZifyNat Bool Arith.
+Open Scope gname_scope.
 Open Scope N_scope.
 
 (* ApplyRaftRequest indexes cmd.Args[1] before dispatch: a one-argument command always panics there *)
 Lemma apply_short_panics : forall pf v2 args, (length args < 2)%nat -> apply_shape pf v2 args = APanic.
 Proof.
   intros pf v2 args H. destruct args as [|a [|b r]]; simpl in *; try reflexivity. lia.
+Qed.
+
+(* ---------- names ---------- *)
+Lemma bl_eqb_eq a b : bl_eqb a b = true -> a = b.
+Proof.
+  revert b. induction a as [|x a IH]; destruct b as [|y b]; simpl; try discriminate; [reflexivity|].
+  intro H. apply andb_prop in H. destruct H as [H1 H2].
+  apply Byte.byte_dec_bl in H1. subst y. f_equal. apply IH. exact H2.
+Qed.
+Lemma gname_eqb_eq a b : gname_eqb a b = true -> a = b.
+Proof. destruct a as [x], b as [y]. unfold gname_eqb. simpl. intro H. f_equal. apply bl_eqb_eq. exact H. Qed.
+
+(* ---------- parity ---------- *)
+Lemma even_true_ex n : Nat.even n = true -> exists k, n = (2 * k)%nat.
+Proof. intro H. apply Nat.even_spec in H. destruct H as [k Hk]. exists k. lia. Qed.
+Lemma even_false_ex n : Nat.even n = false -> exists k, n = (2 * k + 1)%nat.
+Proof.
+  intro H. assert (Ho : Nat.odd n = true) by (unfold Nat.odd; rewrite H; reflexivity).
+  apply Nat.odd_spec in Ho. destruct Ho as [k Hk]. exists k. lia.
+Qed.
+Lemma even_2k k : Nat.even (2 * k) = true.
+Proof. apply Nat.even_spec. exists k. lia. Qed.
+Lemma even_2k1 k : Nat.even (2 * k + 1) = false.
+Proof.
+  destruct (Nat.even (2 * k + 1)) eqn:E; [|reflexivity].
+  apply even_true_ex in E. destruct E as [j Hj]. lia.
+Qed.
+
+(* ---------- arity specifications: lo <= n <= hi, optional parity ---------- *)
+Record aspec := mkA { lo : nat; hi : option nat; par : option bool }.
+Definition sat (s : aspec) (n : nat) : bool :=
+  Nat.leb (lo s) n
+  && match hi s with Some h => Nat.leb n h | None => true end
+  && match par s with Some b => Bool.eqb (Nat.even n) b | None => true end.
+Definition entails (g r : aspec) : bool :=
+  Nat.leb (lo r) (lo g)
+  && match hi r with
+     | None => true
+     | Some hr => match hi g with Some hg => Nat.leb hg hr | None => false end
+     end
+  && match par r with
+     | None => true
+     | Some b => match par g with Some b' => Bool.eqb b' b | None => false end
+     end.
+Lemma entails_sound g r n : entails g r = true -> sat g n = true -> sat r n = true.
+Proof.
+  unfold entails, sat. intros He Hs.
+  apply andb_prop in He. destruct He as [He Hp]. apply andb_prop in He. destruct He as [Hl Hh].
+  apply andb_prop in Hs. destruct Hs as [Hs Hsp]. apply andb_prop in Hs. destruct Hs as [Hsl Hsh].
+  apply andb_true_intro. split; [apply andb_true_intro; split|].
+  - lia.
+  - destruct (hi r) as [hr|]; [|reflexivity]. destruct (hi g) as [hg|]; [|discriminate]. lia.
+  - destruct (par r) as [b|]; [|reflexivity]. destruct (par g) as [b'|]; [|discriminate].
+    apply Bool.eqb_prop in Hp. subst b'. exact Hsp.
+Qed.
+Lemma sat_lo s n : sat s n = true -> (lo s <= n)%nat.
+Proof. unfold sat. intro H. apply andb_prop in H. destruct H as [H _]. apply andb_prop in H. destruct H as [H _]. lia. Qed.
+Lemma sat_par s n b : par s = Some b -> sat s n = true -> Nat.even n = b.
+Proof. unfold sat. intros Hp H. rewrite Hp in H. apply andb_prop in H. destruct H as [_ H]. apply Bool.eqb_prop in H. exact H. Qed.
+Lemma sat_intro lo0 hi0 par0 n :
+  (lo0 <= n)%nat -> (match hi0 with Some h => (n <= h)%nat | None => True end) ->
+  (match par0 with Some b => Nat.even n = b | None => True end) -> sat (mkA lo0 hi0 par0) n = true.
+Proof.
+  intros Hl Hh Hp. unfold sat; simpl. apply andb_true_intro; split; [apply andb_true_intro; split|].
+  - lia.
+  - destruct hi0; [lia|reflexivity].
+  - destruct par0; [rewrite Hp; apply Bool.eqb_reflx|reflexivity].
+Qed.
+
+(* ====================== apply side ====================== *)
+Section Apply.
+Variable pf : bytes -> option N.
+
+Lemma need_ok a i k : (i < alen a)%nat -> need a i k = k.
+Proof. unfold need. intro H. destruct (Nat.ltb i (alen a)) eqn:E; [reflexivity|lia]. Qed.
+Lemma need_slice_ok a i k : (i <= alen a)%nat -> need_slice a i k = k.
+Proof. unfold need_slice. intro H. destruct (Nat.leb i (alen a)) eqn:E; [reflexivity|lia]. Qed.
+Lemma parse_i_np a i k : (i < alen a)%nat -> k <> APanic -> parse_i a i k <> APanic.
+Proof. unfold parse_i. intros H Hk. rewrite need_ok by exact H. destruct (parse_int (arg a i)); [exact Hk|discriminate]. Qed.
+Lemma parse_f_np a i k : (i < alen a)%nat -> k <> APanic -> parse_f pf a i k <> APanic.
+Proof. unfold parse_f. intros H Hk. rewrite need_ok by exact H. destruct (pf (arg a i)); [exact Hk|discriminate]. Qed.
+
+Lemma score_pairs_even l : Nat.even (length l) = true -> score_pairs pf l <> PairsPanic.
+Proof.
+  remember (length l) as n eqn:Hn. revert l Hn.
+  induction n as [n IH] using lt_wf_ind. intros l Hn He.
+  destruct l as [|s [|m rest]]; simpl.
+  - discriminate.
+  - simpl in Hn. subst n. discriminate.
+  - destruct (pf s); [|discriminate].
+    apply (IH (length rest)); [simpl in Hn; lia|reflexivity|].
+    simpl in Hn. subst n. simpl in He. exact He.
+Qed.
+
+(* sufficient argument counts of the apply handlers, by method name (same case analysis as
+   Model.apply_handler); an unknown method needs the impossible *)
+Definition A_ge (n : nat) := mkA n None None.
+Definition needs (m : gname) : aspec :=
+  let is s := gname_eqb m s in
+  if is "localNoOpWriteCommand" then A_ge 0
+  else if is "localDelCommand" || is "localHMClearCommand" || is "localLMClearCommand"
+       || is "localZMClearCommand" || is "localSmclear" then A_ge 1
+  else if is "localDelIfEQCommand" || is "localGetSetCommand" || is "localSetnxCommand" || is "localAppendCommand" then A_ge 3
+  else if is "localSetCommand" then A_ge 3
+  else if is "localSetIfEQCommand" then A_ge 4
+  else if is "localSetRangeCommand" then A_ge 4
+  else if is "localBitSetCommand" || is "localBitSetV2Command" then A_ge 4
+  else if is "localMSetCommand" then mkA 1 None (Some false)
+  else if is "localIncrCommand" || is "localBitClearCommand" || is "localHclearCommand" || is "localLfixkeyCommand"
+       || is "localLpopCommand" || is "localRpopCommand" || is "localLclearCommand" || is "localZFixKeyCommand"
+       || is "localSclear" || is "localPersistCommand" || is "localHashPersistCommand" || is "localListPersistCommand"
+       || is "localSetPersistCommand" || is "localZSetPersistCommand" || is "localBitPersistCommand"
+       || is "localJSONDelCommand" || is "localJSONArrayPopCommand" then A_ge 2
+  else if is "localIncrByCommand" then A_ge 3
+  else if is "localPlsetCommand" then A_ge 0
+  else if is "localPFAddCommand" || is "localHDelCommand" || is "localLpushCommand" || is "localRpushCommand"
+       || is "localSadd" || is "localSrem" then A_ge 2
+  else if is "localHSetCommand" || is "localHSetNXCommand" || is "localJSONSetCommand" then A_ge 4
+  else if is "localHMsetCommand" then A_ge 2
+  else if is "localHIncrbyCommand" then A_ge 4
+  else if is "localJSONArrayAppendCommand" then A_ge 3
+  else if is "localLsetCommand" then A_ge 4
+  else if is "localLtrimCommand" then A_ge 4
+  else if is "localZaddCommand" then mkA 2 None (Some true)
+  else if is "localZincrbyCommand" then A_ge 4
+  else if is "localZremCommand" then A_ge 0
+  else if is "localZremrangebyrankCommand" then A_ge 4
+  else if is "localZremrangebyscoreCommand" then A_ge 4
+  else if is "localZremrangebylexCommand" then A_ge 4
+  else if is "localZclearCommand" then A_ge 0
+  else if is "localSpop" then A_ge 2
+  else if is "localSetexCommand" then A_ge 4
+  else if is "localExpireCommand" || is "localListExpireCommand" || is "localHashExpireCommand"
+       || is "localSetExpireCommand" || is "localZSetExpireCommand" || is "localBitExpireCommand" then A_ge 3
+  else mkA 1 (Some 0%nat) None.
+
+Ltac np :=
+  repeat first
+    [ rewrite need_ok by lia
+    | rewrite need_slice_ok by lia
+    | apply parse_i_np; [lia|]
+    | apply parse_f_np; [lia|]
+    | discriminate
+    | match goal with |- (if ?c then _ else _) <> APanic => destruct c eqn:? end
+    | match goal with |- (match ?c with _ => _ end) <> APanic => destruct c eqn:? end ].
+
+(* per shape function *)
+Lemma np_localRest1 a : (1 <= alen a)%nat -> localRest1 a <> APanic.
+Proof. intro H. unfold localRest1. np. Qed.
+Lemma np_localKeyOnly a : (2 <= alen a)%nat -> localKeyOnly a <> APanic.
+Proof. intro H. unfold localKeyOnly. np. Qed.
+Lemma np_localKV a : (3 <= alen a)%nat -> localKV a <> APanic.
+Proof. intro H. unfold localKV. np. Qed.
+Lemma np_localK3 a : (4 <= alen a)%nat -> localK3 a <> APanic.
+Proof. intro H. unfold localK3. np. Qed.
+Lemma np_localKRest a : (2 <= alen a)%nat -> localKRest a <> APanic.
+Proof. intro H. unfold localKRest. np. Qed.
+Lemma np_localExpire a : (3 <= alen a)%nat -> localExpire a <> APanic.
+Proof. intro H. unfold localExpire. np. Qed.
+Lemma np_localSetCommand a : (3 <= alen a)%nat -> localSetCommand a <> APanic.
+Proof. intro H. unfold localSetCommand, localKV. np. Qed.
+Lemma np_localSetIfEQCommand a : (4 <= alen a)%nat -> localSetIfEQCommand a <> APanic.
+Proof. intro H. unfold localSetIfEQCommand, localK3. np. Qed.
+Lemma np_localMSetCommand a : (1 <= alen a)%nat -> Nat.even (alen a) = false -> localMSetCommand a <> APanic.
+Proof.
+  intros H He. unfold localMSetCommand. rewrite need_slice_ok by lia.
+  apply even_false_ex in He. destruct He as [k Hk]. rewrite Hk.
+  replace (2 * k + 1 - 1)%nat with (2 * k)%nat by lia. rewrite even_2k. discriminate.
+Qed.
+Lemma np_localIncrByCommand a : (3 <= alen a)%nat -> localIncrByCommand a <> APanic.
+Proof. intro H. unfold localIncrByCommand. np. Qed.
+Lemma np_localBitSetV2Command a : (4 <= alen a)%nat -> localBitSetV2Command a <> APanic.
+Proof. intro H. unfold localBitSetV2Command. np. Qed.
+Lemma np_localSetRangeCommand a : (4 <= alen a)%nat -> localSetRangeCommand a <> APanic.
+Proof. intro H. unfold localSetRangeCommand. np. Qed.
+Lemma np_localHMsetCommand a : (2 <= alen a)%nat -> localHMsetCommand a <> APanic.
+Proof. intro H. unfold localHMsetCommand. np. Qed.
+Lemma np_localHIncrbyCommand a : (4 <= alen a)%nat -> localHIncrbyCommand a <> APanic.
+Proof. intro H. unfold localHIncrbyCommand. np. Qed.
+Lemma np_localJSONArrayAppendCommand a : (3 <= alen a)%nat -> localJSONArrayAppendCommand a <> APanic.
+Proof. intro H. unfold localJSONArrayAppendCommand. np. Qed.
+Lemma np_localLsetCommand a : (4 <= alen a)%nat -> localLsetCommand a <> APanic.
+Proof. intro H. unfold localLsetCommand. np. Qed.
+Lemma np_localLtrimCommand a : (4 <= alen a)%nat -> localLtrimCommand a <> APanic.
+Proof. intro H. unfold localLtrimCommand. np. Qed.
+Lemma np_localZaddCommand a : (2 <= alen a)%nat -> Nat.even (alen a) = true -> localZaddCommand pf a <> APanic.
+Proof.
+  intros H He. unfold localZaddCommand. rewrite need_slice_ok by lia.
+  assert (Hs : score_pairs pf (skipn 2 a) <> PairsPanic).
+  { apply score_pairs_even. rewrite skipn_length. unfold alen in *.
+    apply even_true_ex in He. destruct He as [k Hk]. rewrite Hk.
+    replace (2 * k - 2)%nat with (2 * (k - 1))%nat by lia. apply even_2k. }
+  destruct (score_pairs pf (skipn 2 a)); [np|discriminate|congruence].
+Qed.
+Lemma np_localZincrbyCommand a : (4 <= alen a)%nat -> localZincrbyCommand pf a <> APanic.
+Proof. intro H. unfold localZincrbyCommand. np. Qed.
+Lemma np_localZremCommand a : localZremCommand a <> APanic.
+Proof. unfold localZremCommand. np. Qed.
+Lemma np_localZremrangebyrankCommand a : (4 <= alen a)%nat -> localZremrangebyrankCommand a <> APanic.
+Proof. intro H. unfold localZremrangebyrankCommand. np. Qed.
+Lemma np_localZremrangebyscoreCommand a : (4 <= alen a)%nat -> localZremrangebyscoreCommand pf a <> APanic.
+Proof. intro H. unfold localZremrangebyscoreCommand. np. Qed.
+Lemma np_localZremrangebylexCommand a : (4 <= alen a)%nat -> localZremrangebylexCommand a <> APanic.
+Proof. intro H. unfold localZremrangebylexCommand. np. Qed.
+Lemma np_localZclearCommand a : localZclearCommand a <> APanic.
+Proof. unfold localZclearCommand. np. Qed.
+Lemma np_localSpop a : (2 <= alen a)%nat -> localSpop a <> APanic.
+Proof. intro H. unfold localSpop. destruct (Nat.eqb (alen a) 3) eqn:E; np. Qed.
+Lemma np_localSetexCommand a : (4 <= alen a)%nat -> localSetexCommand a <> APanic.
+Proof. intro H. unfold localSetexCommand. np. Qed.
+Lemma np_localPlsetCommand a : localPlsetCommand a <> APanic.
+Proof. unfold localPlsetCommand. np. Qed.
+
+(* the table of needs is sufficient for every method name *)
+Ltac np_dispatch H :=
+  lazymatch goal with
+  | |- AReach <> APanic => discriminate
+  | |- APanic <> APanic =>
+    exfalso; unfold sat in H; cbn in H; apply andb_prop in H; destruct H as [H _]; apply andb_prop in H; lia
+  | |- localRest1 _ <> _ => apply np_localRest1; lia
+  | |- localKeyOnly _ <> _ => apply np_localKeyOnly; lia
+  | |- localKV _ <> _ => apply np_localKV; lia
+  | |- localK3 _ <> _ => apply np_localK3; lia
+  | |- localKRest _ <> _ => apply np_localKRest; lia
+  | |- localExpire _ <> _ => apply np_localExpire; lia
+  | |- localSetCommand _ <> _ => apply np_localSetCommand; lia
+  | |- localSetIfEQCommand _ <> _ => apply np_localSetIfEQCommand; lia
+  | |- localIncrByCommand _ <> _ => apply np_localIncrByCommand; lia
+  | |- localBitSetV2Command _ <> _ => apply np_localBitSetV2Command; lia
+  | |- localSetRangeCommand _ <> _ => apply np_localSetRangeCommand; lia
+  | |- localHMsetCommand _ <> _ => apply np_localHMsetCommand; lia
+  | |- localHIncrbyCommand _ <> _ => apply np_localHIncrbyCommand; lia
+  | |- localJSONArrayAppendCommand _ <> _ => apply np_localJSONArrayAppendCommand; lia
+  | |- localLsetCommand _ <> _ => apply np_localLsetCommand; lia
+  | |- localLtrimCommand _ <> _ => apply np_localLtrimCommand; lia
+  | |- localZincrbyCommand _ _ <> _ => apply np_localZincrbyCommand; lia
+  | |- localZremCommand _ <> _ => apply np_localZremCommand
+  | |- localZremrangebyrankCommand _ <> _ => apply np_localZremrangebyrankCommand; lia
+  | |- localZremrangebyscoreCommand _ _ <> _ => apply np_localZremrangebyscoreCommand; lia
+  | |- localZremrangebylexCommand _ <> _ => apply np_localZremrangebylexCommand; lia
+  | |- localZclearCommand _ <> _ => apply np_localZclearCommand
+  | |- localSpop _ <> _ => apply np_localSpop; lia
+  | |- localSetexCommand _ <> _ => apply np_localSetexCommand; lia
+  | |- localPlsetCommand _ <> _ => apply np_localPlsetCommand
+  | |- localMSetCommand _ <> _ => apply np_localMSetCommand; [lia | eapply sat_par; [|exact H]; reflexivity]
+  | |- localZaddCommand _ _ <> _ => apply np_localZaddCommand; [lia | eapply sat_par; [|exact H]; reflexivity]
+  end.
+
+Lemma needs_sound m a : sat (needs m) (alen a) = true -> apply_handler pf m a <> APanic.
+Proof.
+  unfold needs, apply_handler. intro H.
+  repeat match type of H with
+  | context [gname_eqb m ?s] =>
+    let E := fresh "E" in destruct (gname_eqb m s) eqn:E; cbn [orb] in H |- *; clear E
+  end;
+  pose proof (sat_lo _ _ H) as Hlo; cbn in Hlo; np_dispatch H.
+Qed.
+
+End Apply.
+
+(* ====================== leader side ====================== *)
+Definition A_eq (n : nat) := mkA n (Some n) None.
+
+(* what an accepted command guarantees about the proposed argument count, by wrapper / handler
+   (same case analysis as Model.leader_write); None for an unknown wrapper *)
+Definition guar_write (wrap : gname) (ps : list gname) : option aspec :=
+  if gname_eqb wrap "wrapWriteCommandK" then Some (A_eq 2)
+  else if gname_eqb wrap "wrapWriteCommandKSubkey" then Some (A_eq 3)
+  else if gname_eqb wrap "wrapWriteCommandKSubkeySubkey" then Some (A_ge 3)
+  else if gname_eqb wrap "wrapWriteCommandKAnySubkey" then Some (A_ge (2 + N_of_digits (param ps 2)))
+  else if gname_eqb wrap "wrapWriteCommandKAnySubkeyAndMax" then
+    Some (mkA (2 + N_of_digits (param ps 2)) (Some (2 + N_of_digits (param ps 3))%nat) None)
+  else if gname_eqb wrap "wrapWriteCommandKV" then Some (A_eq 3)
+  else if gname_eqb wrap "wrapWriteCommandKVV" then Some (A_eq 4)
+  else if gname_eqb wrap "wrapWriteCommandKSubkeyV" then Some (A_eq 4)
+  else if gname_eqb wrap "wrapWriteCommandKSubkeyVSubkeyV" then Some (mkA 4 None (Some true))
+  else if gname_eqb wrap "direct" then
+    let m := param ps 0 in
+    if gname_eqb m "setCommand" then Some (A_ge 3)
+    else if gname_eqb m "setnxCommand" then Some (A_eq 3)
+    else if gname_eqb m "setIfEQCommand" then Some (mkA 4 (Some 6%nat) (Some true))
+    else if gname_eqb m "delIfEQCommand" then Some (A_eq 3)
+    else if gname_eqb m "setbitCommand" then Some (A_eq 4)
+    else if gname_eqb m "lsetCommand" then Some (A_eq 4)
+    else if gname_eqb m "ltrimCommand" then Some (A_eq 4)
+    else if gname_eqb m "zaddCommand" then Some (mkA 4 None (Some true))
+    else if gname_eqb m "zremCommand" then Some (A_ge 3)
+    else if gname_eqb m "zincrbyCommand" then Some (A_eq 4)
+    else if gname_eqb m "zremrangebyrankCommand" then Some (A_eq 4)
+    else if gname_eqb m "zremrangebyscoreCommand" then Some (A_eq 4)
+    else if gname_eqb m "zremrangebylexCommand" then Some (A_eq 4)
+    else if gname_eqb m "spopCommand" then Some (mkA 2 (Some 3%nat) None)
+    else if gname_eqb m "saddCommand" then Some (A_ge 3)
+    else if gname_eqb m "sremCommand" then Some (A_ge 3)
+    else if gname_eqb m "geoaddCommand" then Some (mkA 2 None (Some true))
+    else None
+  else None.
+
+(* the name under which the proposal is applied: GEOADD is proposed as ZADD *)
+Definition applied_name (r : reg) : gname :=
+  if gname_eqb (r_wrap r) "direct" && gname_eqb (param (r_params r) 0) "geoaddCommand" then "zadd" else r_name r.
+
+Section Leader.
+Variable pf : bytes -> option N.
+
+Lemma propose_first_spec args n a :
+  propose_first args = LProp n a ->
+  exists k k' rest, args = n :: k :: rest /\ a = n :: k' :: rest.
+Proof.
+  destruct args as [|n0 [|k rest]]; simpl; try discriminate.
+  destruct (cut_ns k) as [k'|]; [|discriminate]. intro H. inversion H; subst. eauto.
+Qed.
+Lemma propose_first_len args n a : propose_first args = LProp n a -> length a = length args.
+Proof. intro H. apply propose_first_spec in H. destruct H as (k & k' & rest & -> & ->). reflexivity. Qed.
+
+(* the relation every proposal satisfies *)
+Definition prop_ok (g : aspec) (geo : bool) (args : list bytes) (n : bytes) (a : list bytes) : Prop :=
+  sat g (length a) = true /\ (exists tl, a = n :: tl) /\
+  (if geo then n = B "zadd" else lower n = lower (hd [] args)).
+
+Lemma prop_ok_first g args n a :
+  propose_first args = LProp n a -> sat g (length args) = true -> prop_ok g false args n a.
+Proof.
+  intros H Hs. pose proof (propose_first_len _ _ _ H) as Hl.
+  apply propose_first_spec in H. destruct H as (k & k' & rest & -> & ->).
+  repeat split; [exact Hs|eexists; reflexivity].
+Qed.
+
+Ltac destr_in H :=
+  repeat match type of H with
+  | context [if ?c then _ else _] => let E := fresh "C" in destruct c eqn:E; try discriminate H
+  | context [match ?c with _ => _ end] => let E := fresh "C" in destruct c eqn:E; try discriminate H
+  end.
+
+Ltac sat_lia := apply sat_intro; cbn; unfold alen in *; try lia; try exact I.
+
+Lemma wrap_common_spec g args ok n a :
+  wrap_common args ok = LProp n a -> (ok = true -> sat g (length args) = true) -> prop_ok g false args n a.
+Proof.
+  unfold wrap_common. intros H Hg. destr_in H. apply prop_ok_first; [exact H|]. apply Hg.
+  destruct ok; [reflexivity|discriminate].
+Qed.
+
+Lemma spec_wrapK pc args f n a : wrapWriteCommandK pc args f = LProp n a -> prop_ok (A_eq 2) false args n a.
+Proof. unfold wrapWriteCommandK. intro H. destr_in H; (apply prop_ok_first; [exact H|]; sat_lia). Qed.
+Lemma spec_wrapKSubkey args n a : wrapWriteCommandKSubkey args = LProp n a -> prop_ok (A_eq 3) false args n a.
+Proof. intro H. eapply wrap_common_spec; [exact H|]. intro. sat_lia. Qed.
+Lemma spec_wrapKSubkeySubkey args n a : wrapWriteCommandKSubkeySubkey args = LProp n a -> prop_ok (A_ge 3) false args n a.
+Proof. intro H. eapply wrap_common_spec; [exact H|]. intro. sat_lia. Qed.
+Lemma spec_wrapKAnySubkey m args n a : wrapWriteCommandKAnySubkey m args = LProp n a -> prop_ok (A_ge (2 + m)) false args n a.
+Proof. intro H. eapply wrap_common_spec; [exact H|]. intro. sat_lia. Qed.
+Lemma spec_wrapKAnySubkeyAndMax m x args n a :
+  wrapWriteCommandKAnySubkeyAndMax m x args = LProp n a -> prop_ok (mkA (2 + m) (Some (2 + x)%nat) None) false args n a.
+Proof. intro H. eapply wrap_common_spec; [exact H|]. intro. sat_lia. Qed.
+Lemma spec_wrapKV args n a : wrapWriteCommandKV args = LProp n a -> prop_ok (A_eq 3) false args n a.
+Proof. intro H. eapply wrap_common_spec; [exact H|]. intro. sat_lia. Qed.
+Lemma spec_wrapKVV args n a : wrapWriteCommandKVV args = LProp n a -> prop_ok (A_eq 4) false args n a.
+Proof. intro H. eapply wrap_common_spec; [exact H|]. intro. sat_lia. Qed.
+Lemma spec_wrapKSVSV args n a :
+  wrapWriteCommandKSubkeyVSubkeyV args = LProp n a -> prop_ok (mkA 4 None (Some true)) false args n a.
+Proof.
+  unfold wrapWriteCommandKSubkeyVSubkeyV. intro H. destr_in H. apply prop_ok_first; [exact H|].
+  match goal with Hx : (_ || _) = false |- _ => apply orb_false_elim in Hx; destruct Hx as [Ha Hb] end.
+  apply negb_false_iff in Hb.
+  apply even_true_ex in Hb. destruct Hb as [k Hk]. unfold alen in *.
+  apply sat_intro; cbn; [lia|exact I|].
+  replace (length args) with (2 * (k + 1))%nat by lia. apply even_2k.
+Qed.
+
+Lemma spec_set args n a : setCommand args = LProp n a -> prop_ok (A_ge 3) false args n a.
+Proof. unfold setCommand. intro H. destr_in H; (apply prop_ok_first; [exact H|]; sat_lia). Qed.
+Lemma spec_setnx args f n a : setnxCommand args f = LProp n a -> prop_ok (A_eq 3) false args n a.
+Proof. unfold setnxCommand. intro H. destr_in H; (apply prop_ok_first; [exact H|]; sat_lia). Qed.
+Lemma spec_ifeq_tail args f n a : ifeq_tail args f = LProp n a -> propose_first args = LProp n a.
+Proof. unfold ifeq_tail. intro H. destr_in H; exact H. Qed.
+Lemma spec_setifeq args f n a : setIfEQCommand args f = LProp n a -> prop_ok (mkA 4 (Some 6%nat) (Some true)) false args n a.
+Proof.
+  unfold setIfEQCommand. intro H. destr_in H. apply spec_ifeq_tail in H. apply prop_ok_first; [exact H|].
+  unfold alen in *. assert (Hn : length args = 4%nat \/ length args = 6%nat) by lia.
+  destruct Hn as [Hn|Hn]; rewrite Hn; reflexivity.
+Qed.
+Lemma spec_delifeq args f n a : delIfEQCommand args f = LProp n a -> prop_ok (A_eq 3) false args n a.
+Proof. unfold delIfEQCommand. intro H. destr_in H. apply spec_ifeq_tail in H. apply prop_ok_first; [exact H|]. sat_lia. Qed.
+Lemma spec_setbit args n a : setbitCommand args = LProp n a -> prop_ok (A_eq 4) false args n a.
+Proof. unfold setbitCommand. intro H. destr_in H. apply prop_ok_first; [exact H|]. sat_lia. Qed.
+Lemma spec_lset args n a : lsetCommand args = LProp n a -> prop_ok (A_eq 4) false args n a.
+Proof. unfold lsetCommand. intro H. destr_in H. apply prop_ok_first; [exact H|]. sat_lia. Qed.
+Lemma spec_ltrim args f n a : ltrimCommand args f = LProp n a -> prop_ok (A_eq 4) false args n a.
+Proof. unfold ltrimCommand. intro H. destr_in H; (apply prop_ok_first; [exact H|]; sat_lia). Qed.
+Lemma spec_zadd args n a : zaddCommand pf args = LProp n a -> prop_ok (mkA 4 None (Some true)) false args n a.
+Proof.
+  unfold zaddCommand. intro H. destr_in H. apply prop_ok_first; [exact H|].
+  match goal with Hx : (_ || _) = false |- _ => apply orb_false_elim in Hx; destruct Hx as [Ha Hb] end.
+  apply negb_false_iff in Hb. unfold alen in *.
+  apply sat_intro; cbn; [lia|exact I|exact Hb].
+Qed.
+Lemma spec_zrem args f n a : zremCommand args f = LProp n a -> prop_ok (A_ge 3) false args n a.
+Proof. unfold zremCommand. intro H. destr_in H; (apply prop_ok_first; [exact H|]; sat_lia). Qed.
+Lemma spec_zincrby args n a : zincrbyCommand pf args = LProp n a -> prop_ok (A_eq 4) false args n a.
+Proof. unfold zincrbyCommand. intro H. destr_in H. apply prop_ok_first; [exact H|]. sat_lia. Qed.
+Lemma spec_zremrangebyrank args n a : zremrangebyrankCommand args = LProp n a -> prop_ok (A_eq 4) false args n a.
+Proof. unfold zremrangebyrankCommand. intro H. destr_in H. apply prop_ok_first; [exact H|]. sat_lia. Qed.
+Lemma spec_zremrangebyscore args n a : zremrangebyscoreCommand pf args = LProp n a -> prop_ok (A_eq 4) false args n a.
+Proof. unfold zremrangebyscoreCommand. intro H. destr_in H. apply prop_ok_first; [exact H|]. sat_lia. Qed.
+Lemma spec_zremrangebylex args n a : zremrangebylexCommand args = LProp n a -> prop_ok (A_eq 4) false args n a.
+Proof. unfold zremrangebylexCommand. intro H. destr_in H. apply prop_ok_first; [exact H|]. sat_lia. Qed.
+Lemma spec_spop args f n a : spopCommand args f = LProp n a -> prop_ok (mkA 2 (Some 3%nat) None) false args n a.
+Proof. unfold spopCommand. intro H. destr_in H; (apply prop_ok_first; [exact H|]; sat_lia). Qed.
+Lemma spec_sadd args f n a : saddCommand args f = LProp n a -> prop_ok (A_ge 3) false args n a.
+Proof. unfold saddCommand. intro H. destr_in H; (apply prop_ok_first; [exact H|]; sat_lia). Qed.
+Lemma spec_srem args f n a : sremCommand args f = LProp n a -> prop_ok (A_ge 3) false args n a.
+Proof. unfold sremCommand. intro H. destr_in H; (apply prop_ok_first; [exact H|]; sat_lia). Qed.
+
+Lemma zadd_of_members_len key ms : length (zadd_of_members key ms) = (2 * (length ms + 1))%nat.
+Proof.
+  unfold zadd_of_members. simpl. induction ms as [|m r IH]; simpl; [reflexivity|].
+  simpl in IH. lia.
+Qed.
+Lemma spec_geoadd args n a : geoaddCommand pf args = LProp n a -> prop_ok (mkA 2 None (Some true)) true args n a.
+Proof.
+  unfold geoaddCommand. intro H. destr_in H.
+  pose proof (propose_first_len _ _ _ H) as Hl. rewrite zadd_of_members_len in Hl.
+  apply propose_first_spec in H. destruct H as (k & k' & rest & Hz & ->).
+  unfold zadd_of_members in Hz. inversion Hz; subst.
+  repeat split; [|eexists; reflexivity].
+  apply sat_intro; cbn [lo hi par]; [lia|exact I|]. rewrite Hl. apply even_2k.
+Qed.
+
+(* every known wrapper / handler keeps its guarantee *)
+Ltac lit_eqb :=
+  repeat match goal with
+  | |- context [gname_eqb (Name ?x) (Name ?y)] =>
+    let v := eval vm_compute in (gname_eqb (Name x) (Name y)) in
+    change (gname_eqb (Name x) (Name y)) with v
+  end.
+
+Lemma leader_write_spec wrap ps args f n a g :
+  guar_write wrap ps = Some g ->
+  leader_write pf wrap ps args f = LProp n a ->
+  prop_ok g (gname_eqb wrap "direct" && gname_eqb (param ps 0) "geoaddCommand") args n a.
+Proof.
+  unfold guar_write, leader_write. intros Hg H.
+  repeat match type of Hg with
+  | context [gname_eqb ?w ?s] =>
+    let E := fresh "E" in destruct (gname_eqb w s) eqn:E;
+    [ apply gname_eqb_eq in E; rewrite E in * |- *; clear E; lit_eqb; cbn [andb] | ]
+  end; try discriminate Hg; inversion Hg; subst g; clear Hg.
+  all: first
+   [ apply spec_wrapK with (1 := H) | apply spec_wrapKSubkey with (1 := H) | apply spec_wrapKSubkeySubkey with (1 := H)
+   | apply spec_wrapKAnySubkey with (1 := H) | apply spec_wrapKAnySubkeyAndMax with (1 := H)
+   | apply spec_wrapKV with (1 := H) | apply spec_wrapKVV with (1 := H) | apply spec_wrapKSVSV with (1 := H)
+   | apply spec_set with (1 := H) | apply spec_setnx with (1 := H) | apply spec_setifeq with (1 := H)
+   | apply spec_delifeq with (1 := H) | apply spec_setbit with (1 := H) | apply spec_lset with (1 := H)
+   | apply spec_ltrim with (1 := H) | apply spec_zadd with (1 := H) | apply spec_zrem with (1 := H)
+   | apply spec_zincrby with (1 := H) | apply spec_zremrangebyrank with (1 := H)
+   | apply spec_zremrangebyscore with (1 := H) | apply spec_zremrangebylex with (1 := H)
+   | apply spec_spop with (1 := H) | apply spec_sadd with (1 := H) | apply spec_srem with (1 := H)
+   | apply spec_geoadd with (1 := H) ].
+Qed.
+
+End Leader.
+
+(* ---------- merged writes (DEL, PLSET) ---------- *)
+Definition guar_merge (wrap : gname) : option aspec :=
+  if gname_eqb wrap "wrapWriteMergeCommandKK" then Some (A_ge 2)
+  else if gname_eqb wrap "wrapWriteMergeCommandKVKV" then Some (mkA 3 None (Some false))
+  else None.
+
+Lemma cut_all_len l : length (cut_all l) = length l.
+Proof. induction l as [|k r IH]; simpl; [reflexivity|]. rewrite IH. reflexivity. Qed.
+Lemma flat_pairs_len {A} (f : A -> list bytes) l : (forall x, length (f x) = 2%nat) -> length (flat_map f l) = (2 * length l)%nat.
+Proof.
+  intro Hf. induction l as [|x r IH]; simpl; [reflexivity|].
+  rewrite app_length, Hf, IH. lia.
+Qed.
+
+Lemma merge_write_spec ns wrap name args n a g :
+  guar_merge wrap = Some g ->
+  merge_write ns wrap name args = LProp n a ->
+  sat g (length a) = true /\ (exists tl, a = n :: tl) /\ n = name.
+Proof.
+  unfold guar_merge, merge_write. intros Hg H.
+  destruct (Nat.ltb (alen args) 2) eqn:Hn; [discriminate|].
+  destruct args as [|x0 [|x1 xs]]; [simpl in Hn; discriminate|simpl in Hn; discriminate|].
+  change (skipn 1 (x0 :: x1 :: xs)) with (x1 :: xs) in H.
+  destruct (extract_ns (arg (x0 :: x1 :: xs) 1)) as [[ns1 k1]|]; [|discriminate].
+  destruct (negb (bytes_eqb ns1 ns)); [discriminate|].
+  destruct (gname_eqb wrap "wrapWriteMergeCommandKK") eqn:E1.
+  - inversion Hg; subst g; clear Hg.
+    destruct (negb (all_keys_in_ns ns (x1 :: xs))); [discriminate|].
+    destruct (max_batch_num <? N.of_nat (length (x1 :: xs))); [discriminate|].
+    injection H as Hn' Ha. subst n a. split; [|split; [eexists; reflexivity|reflexivity]].
+    cbn [length]. rewrite cut_all_len. apply sat_intro; cbn [lo hi par A_ge]; [cbn [length]; lia|exact I|exact I].
+  - destruct (gname_eqb wrap "wrapWriteMergeCommandKVKV") eqn:E2; [|discriminate].
+    inversion Hg; subst g; clear Hg.
+    destruct (negb (all_keys_in_ns ns (map fst (plset_pairs (x1 :: xs))))); [discriminate|].
+    destruct (plset_pairs (x1 :: xs)) as [|kv kvs] eqn:Ekv; [discriminate|].
+    destruct (max_batch_num <? N.of_nat (length (kv :: kvs))); [discriminate|].
+    injection H as Hn' Ha. subst n a. split; [|split; [eexists; reflexivity|reflexivity]].
+    cbn [length]. rewrite flat_pairs_len by (intro; reflexivity).
+    apply sat_intro; cbn [lo hi par]; [cbn [length]; lia|exact I|].
+    replace (S (2 * length (kv :: kvs))) with (2 * length (kv :: kvs) + 1)%nat by lia. apply even_2k1.
+Qed.
+
+(* ---------- the check over the generated table ---------- *)
+Definition apply_ok (g : aspec) (key : bytes) : bool :=
+  Nat.leb 2 (lo g) &&
+  match find_reg KInternal key reg_table with
+  | None => true                                   (* "unsupported redis command": an error, no panic *)
+  | Some h => gname_eqb (r_wrap h) "direct" && entails g (needs (param (r_params h) 0))
+  end.
+Definition entry_ok (r : reg) : bool :=
+  match r_kind r with
+  | KWrite =>
+    match guar_write (r_wrap r) (r_params r) with
+    | None => false
+    | Some g => apply_ok g (B (applied_name r))
+    end
+  | KMergeWrite =>
+    match guar_merge (r_wrap r) with
+    | None => false
+    | Some g => apply_ok g (B (r_name r))
+    end
+  | _ => true
+  end.
+
+(* re-checked by computation whenever Consts.v is regenerated from the source *)
+Lemma table_ok : forallb entry_ok reg_table = true.
+Proof. vm_compute. reflexivity. Qed.
+
+Lemma kind_eqb_eq a b : kind_eqb a b = true -> a = b.
+Proof. destruct a, b; simpl; intro H; try discriminate; reflexivity. Qed.
+Lemma find_reg_spec k name t r : find_reg k name t = Some r -> In r t /\ r_kind r = k /\ B (r_name r) = name.
+Proof.
+  induction t as [|x t IH]; simpl; [discriminate|].
+  destruct (kind_eqb (r_kind x) k && bytes_eqb (B (r_name x)) name) eqn:E.
+  - intro H. inversion H; subst x. apply andb_prop in E. destruct E as [E1 E2].
+    apply kind_eqb_eq in E1. apply bytes_eqb_eq in E2. auto.
+  - intro H. destruct (IH H) as (Hi & Hk & Hn). auto.
+Qed.
+
+Lemma lower_idem b : lower (lower b) = lower b.
+Proof.
+  unfold lower. rewrite map_map. apply map_ext. intro x. unfold lower_byte.
+  destruct ((65 <=? x) && (x <=? 90)) eqn:E.
+  - destruct ((65 <=? x + 32) && (x + 32 <=? 90)) eqn:E2; [lia|reflexivity].
+  - rewrite E. reflexivity.
+Qed.
+
+Lemma apply_ok_sound pf g key n a :
+  apply_ok g key = true -> sat g (length a) = true -> (exists tl, a = n :: tl) -> lower n = key ->
+  apply_shape pf false a <> APanic.
+Proof.
+  unfold apply_ok. intros Hok Hs [tl ->] Hk.
+  apply andb_prop in Hok. destruct Hok as [Hlo Hh].
+  pose proof (sat_lo _ _ Hs) as Hl. destruct tl as [|k rest]; [simpl in Hl; lia|].
+  simpl. rewrite Hk. destruct (find_reg KInternal key reg_table) as [h|]; [|discriminate].
+  apply andb_prop in Hh. destruct Hh as [Hd He]. rewrite Hd.
+  apply needs_sound. apply entails_sound with (1 := He). exact Hs.
+Qed.
+
+(* ====================== theorem (1) ====================== *)
+Theorem validated_implies_safe : forall pf ns args f a,
+  proposed pf ns args f = Some a -> apply_shape pf false a <> APanic.
+Proof.
+  intros pf ns args f a. unfold proposed, handle.
+  destruct args as [|name0 rest]; [discriminate|].
+  set (args := name0 :: rest). set (name := lower name0).
+  destruct (is_merge_command name).
+  - destruct (str_in name merge_keys_cmds); [|discriminate].
+    destruct (find_reg KMergeWrite name reg_table) as [r|] eqn:Hr; [|discriminate].
+    destruct (merge_write ns (r_wrap r) name args) as [| | | |n a'] eqn:Hm; try discriminate.
+    intro H. inversion H; subst a'. clear H.
+    apply find_reg_spec in Hr. destruct Hr as (Hin & Hk & Hname).
+    pose proof (proj1 (forallb_forall _ _) table_ok r Hin) as Hok.
+    unfold entry_ok in Hok. rewrite Hk in Hok.
+    destruct (guar_merge (r_wrap r)) as [g|] eqn:Hg; [|discriminate].
+    destruct (merge_write_spec _ _ _ _ _ _ _ Hg Hm) as (Hs & Htl & Hn).
+    apply apply_ok_sound with (g := g) (key := B (r_name r)) (n := n); auto.
+    subst n. rewrite Hname. unfold name. apply lower_idem.
+  - assert (Hw : forall r, find_reg KWrite name reg_table = Some r ->
+                 VWrite (leader_write pf (r_wrap r) (r_params r) args f) = VWrite (LProp (hd [] a) a) ->
+                 apply_shape pf false a <> APanic).
+    { intros r Hr Hv. inversion Hv as [Hl]. clear Hv.
+      apply find_reg_spec in Hr. destruct Hr as (Hin & Hk & Hname).
+      pose proof (proj1 (forallb_forall _ _) table_ok r Hin) as Hok.
+      unfold entry_ok in Hok. rewrite Hk in Hok.
+      destruct (guar_write (r_wrap r) (r_params r)) as [g|] eqn:Hg; [|discriminate].
+      destruct (leader_write_spec pf _ _ _ _ _ _ _ Hg Hl) as (Hs & Htl & Hn).
+      apply apply_ok_sound with (g := g) (key := B (applied_name r)) (n := hd [] a); auto.
+      unfold applied_name.
+      destruct (gname_eqb (r_wrap r) "direct" && gname_eqb (param (r_params r) 0) "geoaddCommand").
+      - rewrite Hn. vm_compute. reflexivity.
+      - rewrite Hn. simpl. fold name. symmetry. exact Hname. }
+    assert (Hgen : forall v, v = handle pf ns args f \/ True ->
+                   match v with VWrite (LProp _ a0) => Some a0 | _ => None end = Some a ->
+                   exists n, v = VWrite (LProp n a)).
+    { intros v _ Hv. destruct v as [| |[| | | |n a0]]; try discriminate. inversion Hv; subst. eauto. }
+    destruct (Nat.ltb (alen args) 2).
+    { destruct (find_reg KRead name reg_table); discriminate. }
+    destruct (extract_ns (arg args 1)) as [[ns1 k1]|].
+    2:{ destruct (find_reg KRead name reg_table); discriminate. }
+    destruct (find_reg KRead name reg_table); [discriminate|].
+    destruct (negb (bytes_eqb ns1 ns)); [discriminate|].
+    destruct (find_reg KWrite name reg_table) as [r|] eqn:Hr; [|discriminate].
+    destruct (leader_write pf (r_wrap r) (r_params r) args f) as [| | | |n a'] eqn:Hl; try discriminate.
+    intro H. inversion H; subst a'. clear H.
+    apply (Hw r eq_refl). rewrite Hl. f_equal. f_equal.
+    pose proof (find_reg_spec _ _ _ _ Hr) as (Hin & Hk & Hname).
+    pose proof (proj1 (forallb_forall _ _) table_ok r Hin) as Hok.
+    unfold entry_ok in Hok. rewrite Hk in Hok.
+    destruct (guar_write (r_wrap r) (r_params r)) as [g|] eqn:Hg; [|discriminate].
+    destruct (leader_write_spec pf _ _ _ _ _ _ _ Hg Hl) as (_ & [tl ->] & _). reflexivity.
 Qed.
